@@ -3,6 +3,7 @@ package rules
 import (
 	"fmt"
 	"go/token"
+	"go/types"
 	"strings"
 
 	"bxhlint/core"
@@ -91,10 +92,43 @@ func C18(c *Ctx) {
 
 	pt := c.fn("R18.1", mpPrefix+"ProcessTransactions")
 	if pt != nil {
-		isInsert := or(func(in ssa.Instruction) bool {
+		isValidSet := func(t types.Type) bool {
+			return strings.Contains(t.String(), "map[string][]") && strings.Contains(t.String(), "pb.Transaction")
+		}
+		isInsertDirect := func(in ssa.Instruction) bool {
 			mu, ok := in.(*ssa.MapUpdate)
-			return ok && strings.Contains(mu.Map.Type().String(), "map[string][]") && strings.Contains(mu.Map.Type().String(), "pb.Transaction")
-		})
+			return ok && isValidSet(mu.Map.Type())
+		}
+		// also through a get-or-create helper that appends to the set it receives (appendAccountTx(set, account, tx))
+		isInsert := func(in ssa.Instruction) bool {
+			if isInsertDirect(in) {
+				return true
+			}
+			call, ok := in.(ssa.CallInstruction)
+			if !ok {
+				return false
+			}
+			h := core.StaticCallee(call)
+			if h == nil || len(h.Blocks) == 0 || core.PkgOf(h) != core.PkgOf(pt) {
+				return false
+			}
+			for _, x := range sites(h, isInsertDirect) {
+				if _, isPar := core.Strip(x.(*ssa.MapUpdate).Map).(*ssa.Parameter); isPar {
+					return true
+				}
+			}
+			return false
+		}
+		// the admission of one transaction may have been extracted from the loop of ProcessTransactions: the filter is
+		// evaluated where the insertion is
+		if len(sites(pt, isInsert)) == 0 {
+			for _, call := range core.Calls(pt) {
+				if h := core.StaticCallee(call); h != nil && len(h.Blocks) > 0 && core.PkgOf(h) == core.PkgOf(pt) && len(sites(h, isInsert)) > 0 && h.Signature.Recv() != nil {
+					pt = h
+					break
+				}
+			}
+		}
 		// nonce >= pending: `tx.GetNonce() < currentSeqNo` false edge
 		nonceOK := condEdges(pt, func(f core.Fact, ifi *ssa.If) (bool, int) {
 			bo, ok := ifi.Cond.(*ssa.BinOp)
@@ -134,14 +168,73 @@ func C18(c *Ctx) {
 	gb := c.fn("R18.2", mpPrefix+"generateBlock")
 	if gb != nil {
 		nIncl := 0
-		for _, f := range core.WithClosures(gb) {
+		// where the iteration callback lives: a closure of generateBlock, or a method value handed to the index walk
+		// (`index.Ascend(collector.visit)`)
+		cands := core.WithClosures(gb)
+		for _, call := range core.Calls(gb) {
+			for _, a := range call.Common().Args {
+				if t := core.FuncValueTarget(a); t != nil && t.Parent() == nil && t.Signature.Recv() != nil && core.PkgOf(t) == core.PkgOf(gb) {
+					cands = append(cands, t)
+				}
+			}
+		}
+		for _, f := range cands {
 			isBatched := func(v ssa.Value) bool { return core.Mentions(v, fieldNamed("batchedTxs")) }
-			isInclude := or(func(in ssa.Instruction) bool {
+			isIncludeDirect := or(func(in ssa.Instruction) bool {
 				mu, ok := in.(*ssa.MapUpdate)
 				return ok && isBatched(mu.Map)
 			}, appendsWhere(func(dst ssa.Value) bool { return strings.Contains(dst.Type().String(), "orderedIndexKey") }))
+			// mark and append may sit together in a helper that receives the key (collector.take(key)): its call is
+			// the inclusion, and the pairing of mark and append is decided inside the helper
+			isInclude := func(in ssa.Instruction) bool {
+				if isIncludeDirect(in) {
+					return true
+				}
+				call, ok := in.(ssa.CallInstruction)
+				if !ok {
+					return false
+				}
+				h := core.StaticCallee(call)
+				return h != nil && h != f && len(h.Blocks) > 0 && core.PkgOf(h) == core.PkgOf(gb) && len(sites(h, isIncludeDirect)) > 0
+			}
 			if len(sites(f, isInclude)) == 0 {
 				continue
+			}
+			if len(sites(f, isIncludeDirect)) == 0 {
+				// pairing inside the helper(s): every helper that appends a key marks the same key and vice versa
+				for _, x := range sites(f, isInclude) {
+					h := core.StaticCallee(x.(ssa.CallInstruction))
+					nApp := len(sites(h, appendsWhere(func(dst ssa.Value) bool { return strings.Contains(dst.Type().String(), "orderedIndexKey") })))
+					nMark := len(sites(h, func(in ssa.Instruction) bool { mu, ok := in.(*ssa.MapUpdate); return ok && isBatched(mu.Map) }))
+					okPair := nApp == 1 && nMark == 1
+					if okPair {
+						// straight-line: no return between the two
+						var first ssa.Instruction
+						for _, b := range h.Blocks {
+							for _, in := range b.Instrs {
+								if first == nil && isIncludeDirect(in) {
+									first = in
+								}
+							}
+						}
+						rs := core.Reach([]core.Point{core.After(first)}, func(in ssa.Instruction) bool { return in != first && isIncludeDirect(in) }, nil)
+						for _, ret := range core.Returns(h) {
+							if rs.Has(ret) {
+								okPair = false
+							}
+						}
+						// and both use the key the helper received
+						for _, in := range sites(h, isIncludeDirect) {
+							if mu, ok := in.(*ssa.MapUpdate); ok {
+								if _, isPar := core.Strip(mu.Key).(*ssa.Parameter); !isPar {
+									okPair = false
+								}
+							}
+						}
+					}
+					r.Check(okPair, "R18.2", "generateBlock: "+h.Name()+" marks and appends the key it receives", c.P.Pos(x.Pos()), "one mark and one append of the helper's key parameter, no return between them",
+						"the helper that includes a transaction does not both mark it in batchedTxs and append it to the batch on every path")
+				}
 			}
 			es := core.EdgeSet{}
 			// seenPrevious true
@@ -184,6 +277,11 @@ func C18(c *Ctx) {
 				return false, 0
 			}))
 			nIncl += c.behindEdges("R18.2", "generateBlock", f, es, isInclude, "predecessor batched or nonce == commit nonce", "inclusion into the batch")
+			for _, x := range sites(f, isInclude) {
+				if !isIncludeDirect(x) { // a helper call stands for the mark and the append it performs
+					nIncl += len(sites(core.StaticCallee(x.(ssa.CallInstruction)), isIncludeDirect)) - 1
+				}
+			}
 
 			// pairing: every key appended to the batch is marked in batchedTxs on every path
 			for _, ap := range sites(f, appendsWhere(func(dst ssa.Value) bool { return strings.Contains(dst.Type().String(), "orderedIndexKey") })) {
@@ -406,7 +504,6 @@ func C18(c *Ctx) {
 	}
 	_ = fmt.Sprintf
 }
-
 
 // c18CommitNonce: R18.6.
 func (c *Ctx) c18CommitNonce() {
